@@ -911,6 +911,25 @@ def mon_B(case, pid):
                 if e["id"] not in snap["kw"] and "C05" not in seen:
                     seen.add("C05")
                     yield finding("C05", st, f"at rest: key {k} is held but not charged", "C05/held-but-not-charged/layerB")
+        if pid == "C05":
+            # shutdown() clears the store, the charges and the total in three separate actions; a command (or an eviction
+            # by the sweeper) in flight while they run is the cause of known finding D10
+            busy = pcs.get("w") not in ("worker.recv", "worker.drain", "finished") or pcs.get("s") not in ("sweep.begin", "sweep.end", "finished")
+            if busy and any(v in ("shutdown.store_clear", "shutdown.kw_clear", "shutdown.wu_zero") for v in clients.values()):
+                seen.add("raced")
+        if pid == "C05" and at_rest and not locked and snap["shut"] and all(a != "pending" for a in snap["acks"]) and "C05s" not in seen:
+            total = sum(e["weight"] for e in snap["kw"].values())
+            why = None
+            if total != snap["wu"]:
+                why = f"total {snap['wu']} differs from the sum of charged weights {total}"
+            elif any((snap["store"].get(e["key"]) or {}).get("id") != i for i, e in snap["kw"].items()):
+                why = "an id is charged but not held"
+            elif any(e["id"] not in snap["kw"] for e in snap["store"].values()):
+                why = "a key is physically held but not charged"
+            if why:
+                seen.add("C05s")
+                cause = "raced-inflight-command" if "raced" in seen else "no-race"
+                yield finding("C05", st, f"at rest after shutdown(): {why} (store {sorted(snap['store'])}, charged ids {sorted(snap['kw'])}, total {snap['wu']})", f"C05/accounting-void-after-shutdown/{cause}")
         if pid == "C15" and len(snap["stats"]) >= 10 and not snap["shut"] and "C15" not in seen:
             in_flight = sum(1 for v in clients.values() if v == "pool.add")
             hits, added, dropped = snap["stats"][0], snap["stats"][8], snap["stats"][9]
